@@ -100,11 +100,12 @@ example : pathIds [⟨10, ⟨none, 5, 1⟩⟩, ⟨11, ⟨some 0, 6, 2⟩⟩, ⟨
 
 /-- soundness of the validator run on every artifact: in an accepted artifact, at the return offset of every call
 to the trap handler and to the stack-overflow handler inside compiled code, the lookup finds an entry (the
-handler can name the line: it never falls back to the function's declaration line), the expansion terminates
+handler can name the line: it never falls back to the function's declaration line; and the return offset lies strictly
+inside the function, so the code map attributes the address to this function, not to its neighbour), the expansion terminates
 without panic, its first line is that entry's position and its last line is the function the call is in. -/
 theorem accepted_artifact_names_every_trap_site (a : Artifact) (h : wfTrace a = true) (f : Fn) (hf : f ∈ a.fns)
     (hk : f.kind = .optimized) (c : Call) (hc : c ∈ f.calls) (hr : c.cls.reports = true) :
-    ∃ loc fs, get f.locs c.ret = some loc ∧
+    c.ret < f.size ∧ ∃ loc fs, get f.locs c.ret = some loc ∧
       (∀ fuel, f.inls.length ≤ fuel → dumpStackElem f c.ret fuel = .ok fs) ∧
       Chain f.inls f.info loc fs ∧
       fs.head?.map (fun x => (x.line, x.col)) = some (loc.line, loc.col) ∧
@@ -114,7 +115,9 @@ theorem accepted_artifact_names_every_trap_site (a : Artifact) (h : wfTrace a = 
   simp only [fnOK, Bool.and_eq_true, List.all_eq_true, hk, if_true] at hfn
   obtain ⟨⟨⟨⟨⟨_, hsorted⟩, hlocs⟩, hinls⟩, hwf⟩, hcalls⟩ := hfn
   have hcall := hcalls c hc
-  simp only [callOK, hr, if_true] at hcall
+  simp only [callOK, hr, if_true, Bool.and_eq_true, decide_eq_true_eq] at hcall
+  refine ⟨hcall.1, ?_⟩
+  replace hcall := hcall.2
   obtain ⟨loc, hloc⟩ := Option.isSome_iff_exists.mp hcall
   have hmem := (get_eq_some_iff f.locs (sortedB_sorted _ hsorted) c.ret loc).mp hloc
   have hlo := hlocs _ hmem
